@@ -100,7 +100,15 @@ def run_verus(gen, out_path, seed=0, rlimit=None, extra=None, timeout=900):
                 res.undecided.append('verus: ' + msg)
                 continue
             if any(msg.startswith(fp) or fp in msg for fp in FAIL_PATTERNS):
-                res.failures.append(map_failure(gen, d))
+                f = map_failure(gen, d)
+                if f['clause'] is None and is_panic_freedom_only(d, os.path.basename(out_path)):
+                    # overflow, division by zero, or a precondition of a std/vstd function (unwrap, indexing ..):
+                    # panic-freedom of changed code is not one of the properties -> undecided for that function
+                    res.undecided.append('verus could not show panic-freedom (not a listed property) in %s: %s%s' % (f['fn'], msg, span_str(d)))
+                    if f['fn']:
+                        res.rejected_fns[f['fn']] = 'panic-freedom not shown: ' + msg[:120]
+                else:
+                    res.failures.append(f)
             else:
                 # type error, unsupported construct, name resolution, mode error...
                 res.undecided.append('verus rejected the unit (not a verification failure): %s%s' % (msg, span_str(d)))
@@ -119,6 +127,17 @@ def run_verus(gen, out_path, seed=0, rlimit=None, extra=None, timeout=900):
         res.undecided.append('verus exit %d without diagnostics: %s' % (p.returncode, p.stderr[-400:]))
     res.ok = (p.returncode == 0 and not res.failures and not res.undecided and res.errors == 0)
     return res
+
+
+def is_panic_freedom_only(d, unit_file):
+    msg = d.get('message', '')
+    if 'arithmetic underflow/overflow' in msg or 'division by zero' in msg:
+        return True
+    if msg.startswith('precondition not satisfied'):
+        for sp in d.get('spans', []):
+            if 'failed precondition' in (sp.get('label') or '') and os.path.basename(sp.get('file_name', '')) != unit_file:
+                return True
+    return False
 
 
 def span_str(d):
